@@ -114,6 +114,15 @@ def impl(case):
                     third[k] = "EXC:" + type(e).__name__
                 r = clirun.run_main(["--no-status"] + case["argv"] + [os.path.basename(pd[a]), os.path.basename(pd[b])], dirpath)
                 exit_[k] = r["rc"] if not r["exc"] else "EXC:" + r["exc"]
+                # the same files under names that say nothing, with the types given explicitly
+                for f in (a, b):
+                    dat = os.path.join(dirpath, "d_" + f + ".dat")
+                    if not os.path.exists(dat):
+                        shutil.copy(pd[f], dat)
+                r2 = clirun.run_main(["--no-status", "--from-" + a, "--to-" + b] + case["argv"] + ["d_" + a + ".dat", "d_" + b + ".dat"], dirpath)
+                rc2 = r2["rc"] if not r2["exc"] else "EXC:" + r2["exc"]
+                if rc2 != exit_[k]:
+                    exit_[k] = f"{exit_[k]} by extension but {rc2} with --from-{a} --to-{b}"
         return {"same_obj": same_obj, "cost": cost, "eq": eq, "third": third, "exit": exit_}
     finally:
         shutil.rmtree(dirpath, ignore_errors=True)
